@@ -4,7 +4,7 @@ import (
 	"fmt"
 	"net/url"
 	"os"
-		"strings"
+	"strings"
 	"time"
 
 	"verifharness/codecgen"
@@ -34,6 +34,11 @@ func runC06(cfg *vh.Config) error {
 	fmt.Fprintf(os.Stderr, "c06 loadTargets %s\n", time.Since(tStart))
 	em := &emitter{cf: &vh.CasesFile{Header: envHeader(targets), Type: "deccase", Check: "dec_check"}, res: res, perShd: 250}
 	distinct := vh.Distinct{}
+	// the schema conditions of the theorems, once per environment
+	for _, t := range targets {
+		em.add("CEnv "+t.Name, "environment", map[string]any{"target": t.Env.Root}, map[string]any{"env": t.Name})
+		em.caseNo++
+	}
 	r := cfg.R
 	full := targets[0]
 	byName := map[string]*target{}
